@@ -26,6 +26,18 @@ func init() {
 	}
 }
 
+func init() {
+	// uuidfile <text-hex>: the text as a FILE through file.Inspect (dispatch included) → the same result form as `uuid`:
+	// "1 ok <info>" when the file is described as a UUID, "0 err" when it is described as anything else or not at all
+	ops["uuidfile"] = func(a []string) string {
+		i, err := inspectAt("u.txt", unhx(a[0]))
+		if err != nil || !strings.HasPrefix(i.Description, "UUID") {
+			return "0 err"
+		}
+		return "1 " + resInfo(i, nil)
+	}
+}
+
 func uuidForms(u [16]byte, r *rng) []string {
 	c := fmt.Sprintf("%x-%x-%x-%x-%x", u[0:4], u[4:6], u[6:8], u[8:10], u[10:16])
 	up := strings.ToUpper(c)
@@ -67,6 +79,27 @@ func init() {
 
 func genC17(tier string, r *rng) {
 	emitU := func(s string) { emit("uuid", hxs(s)) }
+	// UUID texts that are ALSO something another sniffer recognises: bare hex whose base64 reading is exactly one DER
+	// element ([0-9A-F] B [ab] + 29 hex digits: identifier octet, length 22, 22 octets), a form feed and a space in front of
+	// bare hex (0C 20 = the header of a 32-octet UTF8String; white space around a UUID is trimmed), line ends after it; and
+	// ordinary texts of every form, as files
+	for i := 0; i < 40; i++ {
+		u := r.bytes(16)
+		u[6] = byte(0x10*(1+i%8)) | u[6]&0x0f
+		u[8] = 0x80 | u[8]&0x3f
+		bare := fmt.Sprintf("%x", u)
+		first := "0123456789ABCDEF"[i%16]
+		poly := string(first) + "B" + string("ab"[i%2]) + bare[3:]
+		for _, t := range []string{poly, "\f " + bare, "\f " + strings.ToUpper(bare), "\t\n" + bare + "\r\n", "\x0c\x20" + poly} {
+			emit("uuidfile", hxs(t))
+		}
+		var uu [16]byte
+		copy(uu[:], u)
+		for _, f := range uuidForms(uu, r) {
+			emit("uuidfile", hxs(f))
+			emit("uuidfile", hxs(" "+f+"\n"))
+		}
+	}
 	// one UUID of every version (time-bearing ones with a time of day far from midnight and near it) under several zones
 	for _, u := range []string{"c232ab00-9414-11ec-b3c8-9f6bdeced846", "000003e8-9414-21ec-b300-9f6bdeced846", "1ec9414c-232a-6b00-b3c8-9f6bdeced846",
 		"017f22e2-79b0-7cc3-98c4-dc0c0c07398f", "018fffff-ffff-7cc3-98c4-dc0c0c07398f", "5df41881-3aed-3515-88a7-2f4a814cf09e", "919108f7-52d1-4320-9bac-f847db4148a8",
